@@ -157,7 +157,8 @@ func (w *world) inner() http.Handler {
 
 type stackCfg struct {
 	kinds     []string
-	intervene int // index of the middleware configured to intervene, -1 none
+	intervene int  // index of the middleware configured to intervene, -1 none
+	verbose   bool // every middleware gets its verbose/debug option and a logger that formats its arguments
 }
 
 func (s stackCfg) String() string {
@@ -180,15 +181,27 @@ func build(cfg stackCfg, h http.Handler) (http.Handler, error) {
 		var err error
 		switch cfg.kinds[i] {
 		case "stream":
-			cur, err = stream.New(cur)
+			if cfg.verbose {
+				cur, err = stream.New(cur, stream.Verbose(true), stream.Logger(lib.FormatLogger{}))
+			} else {
+				cur, err = stream.New(cur)
+			}
 		case "trace":
-			cur, err = trace.New(cur, io.Discard)
+			if cfg.verbose {
+				cur, err = trace.New(cur, io.Discard, trace.Logger(lib.FormatLogger{}), trace.RequestHeaders("Host"), trace.ResponseHeaders("X-Multi"))
+			} else {
+				cur, err = trace.New(cur, io.Discard)
+			}
 		case "connlimit":
 			limit := int64(100)
 			if bad {
 				limit = 0
 			}
-			cur, err = connlimit.New(cur, extractor(), limit)
+			if cfg.verbose {
+				cur, err = connlimit.New(cur, extractor(), limit, connlimit.Verbose(true), connlimit.Logger(lib.FormatLogger{}))
+			} else {
+				cur, err = connlimit.New(cur, extractor(), limit)
+			}
 		case "ratelimit":
 			rs := ratelimit.NewRateSet()
 			if bad {
@@ -196,16 +209,28 @@ func build(cfg stackCfg, h http.Handler) (http.Handler, error) {
 			} else {
 				rs.Add(time.Second, 1000, 1000)
 			}
-			cur, err = ratelimit.New(cur, extractor(), rs)
+			if cfg.verbose {
+				cur, err = ratelimit.New(cur, extractor(), rs, ratelimit.Logger(lib.FormatLogger{}))
+			} else {
+				cur, err = ratelimit.New(cur, extractor(), rs)
+			}
 		case "cbreaker":
 			cond := "NetworkErrorRatio() > 0.5"
 			if bad {
 				cond = "ResponseCodeRatio(500, 600, 0, 600) > 0.5"
 			}
-			cur, err = cbreaker.New(cur, cond)
+			if cfg.verbose {
+				cur, err = cbreaker.New(cur, cond, cbreaker.Verbose(true), cbreaker.Logger(lib.FormatLogger{}))
+			} else {
+				cur, err = cbreaker.New(cur, cond)
+			}
 		case "roundrobin":
 			var rr *roundrobin.RoundRobin
-			rr, err = roundrobin.New(cur)
+			if cfg.verbose {
+				rr, err = roundrobin.New(cur, roundrobin.Verbose(true), roundrobin.Logger(lib.FormatLogger{}))
+			} else {
+				rr, err = roundrobin.New(cur)
+			}
 			if err == nil && !bad {
 				rr.UpsertServer(&url.URL{Scheme: "http", Host: "backend-a"})
 				rr.UpsertServer(&url.URL{Scheme: "http", Host: "backend-b"})
@@ -218,18 +243,25 @@ func build(cfg stackCfg, h http.Handler) (http.Handler, error) {
 				return nil, err
 			}
 			var rb *roundrobin.Rebalancer
-			rb, err = roundrobin.NewRebalancer(rr)
+			if cfg.verbose {
+				rb, err = roundrobin.NewRebalancer(rr, roundrobin.RebalancerDebug(true), roundrobin.RebalancerLogger(lib.FormatLogger{}))
+			} else {
+				rb, err = roundrobin.NewRebalancer(rr)
+			}
 			if err == nil && !bad {
 				rb.UpsertServer(&url.URL{Scheme: "http", Host: "backend-a"})
 				rb.UpsertServer(&url.URL{Scheme: "http", Host: "backend-b"})
 			}
 			cur = rb
 		case "buffer":
+			var bo []buffer.Option
 			if bad {
-				cur, err = buffer.New(cur, buffer.MaxRequestBodyBytes(4))
-			} else {
-				cur, err = buffer.New(cur)
+				bo = append(bo, buffer.MaxRequestBodyBytes(4))
 			}
+			if cfg.verbose {
+				bo = append(bo, buffer.Verbose(true), buffer.Logger(lib.FormatLogger{}))
+			}
+			cur, err = buffer.New(cur, bo...)
 		}
 		if err != nil {
 			return nil, err
@@ -385,7 +417,7 @@ func (w *world) reset(b behaviour) {
 	}
 }
 
-func runStack(w *world, ks []string, base map[behaviour]result, rep *lib.Report) {
+func runStack(w *world, ks []string, verbose bool, base map[behaviour]result, rep *lib.Report) {
 	hasBuffer := false
 	for _, k := range ks {
 		if k == "buffer" {
@@ -393,9 +425,12 @@ func runStack(w *world, ks []string, base map[behaviour]result, rep *lib.Report)
 		}
 	}
 	name := strings.Join(ks, ">")
+	if verbose {
+		name += " (verbose options, formatting logger)"
+	}
 	w.stream = !hasBuffer
 	// --- transparent configuration
-	h, err := build(stackCfg{ks, -1}, w.inner())
+	h, err := build(stackCfg{ks, -1, verbose}, w.inner())
 	if err != nil {
 		rep.DistrustF("cannot build %s: %v", name, err)
 		return
@@ -410,7 +445,7 @@ func runStack(w *world, ks []string, base map[behaviour]result, rep *lib.Report)
 		res := w.exchange(nil, early)
 		rep.Evaluations++
 		want := base[b]
-		what := map[string]any{"engine": "enum", "part": "c20", "stack": name, "behaviour": b.String(), "mode": "transparent"}
+		what := map[string]any{"engine": "enum", "part": "c20", "stack": strings.Join(ks, ">"), "verbose": verbose, "behaviour": b.String(), "mode": "transparent"}
 		cls := []string{"plain", "flush", "hijack", "early-hints"}[b.mode]
 		if b.status == 0 {
 			cls += "+implicit-status"
@@ -462,13 +497,13 @@ func runStack(w *world, ks []string, base map[behaviour]result, rep *lib.Report)
 		if !ok {
 			continue
 		}
-		h, err := build(stackCfg{ks, pos}, w.inner())
+		h, err := build(stackCfg{ks, pos, verbose}, w.inner())
 		if err != nil {
 			rep.DistrustF("cannot build %s: %v", name, err)
 			return
 		}
 		w.handler.Store(&h)
-		what := map[string]any{"engine": "enum", "part": "c20", "stack": name, "mode": "intervene", "position": pos}
+		what := map[string]any{"engine": "enum", "part": "c20", "stack": strings.Join(ks, ">"), "verbose": verbose, "mode": "intervene", "position": pos}
 		// warm-up where the intervention needs history (token consumed / breaker tripped)
 		switch k {
 		case "ratelimit":
@@ -554,7 +589,8 @@ func Run(tier string, sh lib.Shard, rep *lib.Report) {
 			break
 		}
 		before := rep.Counters["transparent_exchanges"]
-		runStack(w, ks, base, rep)
+		runStack(w, ks, false, base, rep)
+		runStack(w, ks, true, base, rep)
 		if len(ks) >= 2 {
 			rep.Nontrivial += rep.Counters["transparent_exchanges"] - before
 		}
@@ -570,7 +606,7 @@ func Replay(rp map[string]any) (bool, string) {
 	w := newWorld()
 	defer w.srv.Close()
 	base := baseline(w, rep)
-	runStack(w, strings.Split(name, ">"), base, rep)
+	runStack(w, strings.Split(name, ">"), rp["verbose"] == true, base, rep)
 	key, _ := rp["key"].(string)
 	for _, v := range rep.Violations {
 		if v.Key == key {
